@@ -504,7 +504,9 @@ def replay_mp(ctx, tally, sysrec, cases):
     for d, lab in enumerate(sysrec['label']):
         g = int(gidx[d // N][d % N])
         if g2l.setdefault(g, lab) != lab:
-            raise MachineryError('multipatch numbering does not match the closure (C14 territory): %s' % name)
+            # the glued numbering itself is C14's property, but a mismatch is a defect of the real code all the same
+            tally.add('Multipatch glued-numbering-does-not-match-closure', {'complex': name, 'dof': d, 'global': g})
+            return
     # lattice function f: F[f][y-index][x-index]; physical point of lattice point = pt / p
     ny, nx = W[0] * p + 1, W[1] * p + 1
     F = {}
@@ -653,4 +655,5 @@ def run(ctx):
             replay_mp(ctx, tally, sysr[0], recs)
     print('[c10] replay on the real code: %.1fs' % (time.time() - t_replay), flush=True)
     tally.flush(ctx)
-    ctx.exhaustive = True
+    # quick: for n = 5 elim_rows only as ascending/descending row SETS and fewer mode combinations with elim_rows
+    ctx.exhaustive = bool(ctx.thorough)
